@@ -77,12 +77,16 @@ def main():
         return 2
     sh(["git", "-C", "/repo", "apply", os.path.abspath(patch)])
     try:
+        seeds = [int(x) for x in os.environ.get("SEEDEVAL_SEEDS", "1").split(",")]
         for p in props:
-            t0 = time.time()
-            code, out = sh(["./check", p, "--tier", tier], cwd=ROOT, timeout=7200)
-            viol = [l for l in out.splitlines() if l.startswith("VIOLATION")]
-            meta["checks_run"][p] = {"tier": tier, "exit": code, "violation_lines": len(viol), "first": viol[0][:400] if viol else "", "wall_s": round(time.time() - t0, 1)}
-            print("  ./check %s --tier %s -> exit %d, %d violation line(s) %s" % (p, tier, code, len(viol), viol[0][:200] if viol else ""))
+            for sd in seeds:
+                t0 = time.time()
+                ENV["VERIF_SEED"] = str(sd)
+                code, out = sh(["./check", p, "--tier", tier], cwd=ROOT, timeout=7200)
+                viol = [l for l in out.splitlines() if l.startswith("VIOLATION")]
+                key = p if sd == seeds[0] else "%s@seed%d" % (p, sd)
+                meta["checks_run"][key] = {"tier": tier, "seed": sd, "exit": code, "violation_lines": len(viol), "first": viol[0][:400] if viol else "", "wall_s": round(time.time() - t0, 1)}
+                print("  ./check %s --tier %s (VERIF_SEED=%d) -> exit %d, %d violation line(s) %s" % (p, tier, sd, code, len(viol), viol[0][:200] if viol else ""))
     finally:
         sh(["git", "-C", "/repo", "checkout", "--", "."])
         sh(["git", "-C", "/repo", "clean", "-fdq"])
